@@ -479,6 +479,24 @@ Error RACFGBuilder::on_instruction(InstNode* inst, InstControlFlow& cf, RAInstBu
       InstSameRegHint same_reg_hint = InstSameRegHint::kNone;
       if (single_reg_ops == operands.size()) {
         same_reg_hint = inst_info.same_reg_hint();
+
+        // The hint describes what happens to the bytes the instruction operates on, but the virtual register can
+        // be wider than the operand. The register is only write-only if every byte of it is either written or
+        // zero extended (`xor eax, eax` vs `xor al, al`), and it's only read-only if no byte of it is changed by
+        // zero extension (`vpand xmm, xmm, xmm` clears the rest of a 256-bit or 512-bit virtual register).
+        const OpRWInfo& op_rw_info = rw_info.operand(0);
+        uint64_t reg_byte_mask = ib[0]->work_reg()->reg_byte_mask();
+
+        if (same_reg_hint == InstSameRegHint::kWO) {
+          if (reg_byte_mask & ~(op_rw_info.write_byte_mask() | op_rw_info.extend_byte_mask())) {
+            same_reg_hint = InstSameRegHint::kNone;
+          }
+        }
+        else if (same_reg_hint == InstSameRegHint::kRO) {
+          if (reg_byte_mask & op_rw_info.extend_byte_mask()) {
+            same_reg_hint = InstSameRegHint::kNone;
+          }
+        }
       }
       else if (operands.size() == 2 && operands[1].is_imm()) {
         // Handle some tricks used by X86 asm.
